@@ -12,7 +12,8 @@ EXPLANATION = (
     "epoch/state publication; (R4) the transactions write guard is held from validation to publication; (R5) gc only "
     "drops a committed transaction under commit_epoch <(=) the MINIMUM active start epoch and never an active one; (R7) "
     "record_write inserts its entity into the write set of the transaction named by its argument while Active, commit "
-    "validates the committing transaction's own sets, TxInfo::new stores its arguments. It does not enumerate histories.")
+    "validates the committing transaction's own sets, TxInfo::new stores its arguments. (R8) commit only reads the write sets, so a refused transaction keeps its set; (R9) one exclusive guard on the transaction table spans every refusal decision and the state = Committed write. "
+    "It does not enumerate histories.")
 ASSUMPTIONS = [
     "operands are identified by provenance (TxInfo.start_epoch, TransactionManager.committed_epochs, TxInfo.write_set), not by name",
     "callee resolution and dominators are rustc's",
